@@ -809,7 +809,7 @@ class Evaluator(object):
 
     @staticmethod
     def _is_boolean_term(t):
-        return t[0] in ('cmp', 'const') or (t[0] == 'unop' and t[1] == 'not')
+        return t[0] == 'cmp' or (t[0] == 'const' and isinstance(t[1], bool)) or (t[0] == 'unop' and t[1] == 'not')
 
     def ex_Compare(self, node, st):
         out = []
